@@ -904,3 +904,11 @@ Proof.
   rewrite Forall_forall in F. destruct (F _ Hin) as [A B]. split; [exact (B M)|exact A].
 Qed.
 Check line_convert_events_lines_bounded. Check line_convert_events_op_index_zero.
+
+(* a third conjunct of script_ok: every Row / EndSequence offset of the iteration is a multiple of the converted
+   program's minimum_instruction_length (or that length is 1) — any bytes, any state, both build modes *)
+Theorem line_convert_events_offsets_aligned : forall dbg be sx h c,
+  Forall (ConvertLineInv.ev_aligned (LineWr.le_min_len (LineWr.p_lenc (ConvertLine.cl_prog c))))
+         (fst (fst (ConvertLine.events dbg be sx h c))).
+Proof. exact ConvertLineInv.events_offsets_aligned. Qed.
+Check line_convert_events_offsets_aligned.
